@@ -340,10 +340,6 @@ func (p *Proxy) handleLoop(conn net.Conn) {
 	const maxConsecutiveErrors = 5
 	errorsN := 0
 	for {
-		if p.closing() {
-			// The exchange in flight when shutdown began is done, do not wait for another request.
-			return
-		}
 		if err := pc.handle(); err != nil {
 			if errors.Is(err, errClose) || isCloseable(err) {
 				log.Debug(context.TODO(), "closing connection", "address", conn.RemoteAddr().String(), "duration", time.Since(start))
